@@ -258,6 +258,12 @@ def bodies():
     out = [
         ('obj-empty', JSON_CT, '{}'),
         ('extra-key', JSON_CT, '{"bypass_build_status": true}'),
+        # body keys named like the URL parameters: the validated URL value
+        # is what the job must carry
+        ('shadow-branch', JSON_CT, '{"branch": "refs/heads/feature/x"}'),
+        ('shadow-pr', JSON_CT, '{"pr_id": -12}'),
+        ('shadow-both', JSON_CT,
+         '{"branch": "w/4.3/feature/x", "pr_id": 0, "branch_from": "abc1234"}'),
         ('no-body-no-ct', None, None),
         ('no-body-json-ct', JSON_CT, None),
         ('garbage', JSON_CT, 'not json{'),
